@@ -171,12 +171,20 @@ def build_shapes(reg):
     reg.shape("PMCE", fields={"EXTENSION_NAME": "str"},
               methods={"start_decompress_message": "noop", "end_decompress_message": "noop",
                        "decompress_message_data": "pmce.decompress"})
-    reg.shape("Utf8ValidatorAny", fields={"_state": "range:0:8", "_index": "nat"},
+    reg.shape("Utf8ValidatorAny", fields={"_state": "range:0:8", "_index": "nat", "_codepoint": "int"},
               methods={"reset": "repo:autobahn.websocket.utf8validator:Utf8Validator.reset",
                        "validate": "repo:autobahn.websocket.utf8validator:Utf8Validator.validate"})
     from pyvc import natives
-    reg.native_spec("utf8_valid", lambda ex, state, b: VBool(natives.utf8_valid(b.t)))
+    reg.native_spec("utf8_valid", lambda ex, state, b: ex.dist(state, [b], lambda a: VBool(natives.utf8_valid(a.t))))
     natives.AXIOMS["utf8_valid"] = [natives.utf8_valid(z3.Empty(BytesSort))]
+    def sym_join(ex, state, lst):
+        from pyvc.engine import list_to_seq
+        o = ex.obj(state, lst)
+        seq, el = list_to_seq(o)
+        if o.items is not None and not o.items:
+            return VBytes(b"")
+        return VBytes(natives.join_bytes(seq))
+    reg.native_spec("join", sym_join)
     reg.external("timer.call_later", ext_call_later)
     reg.external("txaio.call_later", ext_call_later)
     reg.external("timer.cancel", ext_timer_cancel)
@@ -241,9 +249,31 @@ def build_shapes(reg):
         "frames_sent": "nat", "last_frame_opcode": "int", "last_frame_payload": "bytes", "last_frame_fin": "bool",
         "last_frame_rsv": "int",
         "n_drop": "nat", "drop_abort": "bool", "n_onclose": "nat", "onclose_clean": "bool", "onclose_code": "opt:int",
-        "onclose_reason": "any", "delivered": "list:bytes", "delivered_binary": "list:bool",
+        "onclose_reason": "opt:str", "delivered": "list:bytes", "delivered_binary": "list:bool",
         "pongs_received": "list:bytes", "timers_armed": "nat", "wire": "bytes",
     }, ghost=True)
+    # the UTF-8 validator: contracts proved in C09, used here as assumed callee contracts
+    from . import c09
+    saved = reg.assume_all
+    reg.assume_all = True
+    c09.build_py(reg)
+    reg.assume_all = saved
+    c09.ensure_defined()
+    b = z3.Const("ax_ub", BytesSort)
+    # assumed contract of CPython's decoder: bytes.decode("utf8") accepts exactly complete well-formed UTF-8 (RFC 3629)
+    natives.AXIOMS["utf8_valid"] = [natives.utf8_valid(z3.Empty(BytesSort)),
+                                    z3.ForAll([b], natives.utf8_valid(b) == (c09.utf8_run(0, b, z3.Length(b)) == 0),
+                                              patterns=[natives.utf8_valid(b)])]
+    reg.overrides[(P, "Utf8Validator")] = VClass("Utf8ValidatorIface")
+    from pyvc import models as _m
+
+    def m_validator(ex, state, args, kwargs):
+        ref = reg.fresh_obj(ex, state, "Utf8ValidatorAny", "utf8vld")
+        o = state.heap[ref.oid]
+        o.fields["_state"] = VInt(0)        # constructor = reset(): START, index 0 (C09 unit Utf8Validator.reset)
+        o.fields["_index"] = VInt(0)
+        return ref
+    _m.CLASS_MODELS["Utf8ValidatorIface"] = m_validator
     reg.overrides[(P, "XorMaskerNull")] = VClass("XorMaskerNull")
     from pyvc import models
     models.CLASS_MODELS["XorMaskerNull"] = m_null_masker
